@@ -119,6 +119,12 @@ CHECKS = {
    text="A case is a workload of 6-30 generated inputs of distinct sizes and a plan of 2-64 goroutines x 1-12 steps over 20 operations (tokenize x2, five parse entry points, recovery, three formatters, extract, two scanners, lint, keyword-suggestion cache, metrics.GetStats, SetSpan/GetSpan on own nodes, direct metrics.Record*), GOMAXPROCS in {1,2,4,16}, optional Gosched between steps; a quarter of the plans are metrics-focused (1-2 recording steps per goroutine released together, 60 rounds). Phase 1 computes every (operation, input) answer and its metrics delta sequentially (and checks the answer is reproducible); phase 2 runs 3-60 rounds with metrics.Reset between them. Oracles: each concurrent result equals the sequential one; the child (GORACE=halt_on_error=1) is not ended by a race report or fatal error; after quiescence operation/error/byte/parse/pool counters, ErrorsByType, MinQuerySize and MaxQuerySize equal the sums/extremes of the sequential deltas.",
    note="Trusted: the Go scheduler samples interleavings (not enumerated; DESIGN.md section 7); the race detector's happens-before model; replay of a schedule-dependent failure re-runs the round rather than the schedule.",
    design="4/C10"),
+ "C20": dict(
+   technique="property-based testing of asymptotic cost: an exhaustively enumerated catalogue of input families plus generated families (composition x generated unit, optionally numbered so every repetition is a distinct lexeme), each measured on a geometric ladder of sizes with deterministic statement-execution counts from coverage counters, allocation totals and CPU time; metamorphic oracle: doubling the input at most about doubles the cost",
+   level="exploration",
+   text="18 grammar compositions (select lists, operator chains, IN lists, VALUES rows, statements, UNION chains, CTE lists, join chains ...) and 41 lexical families (comments, literals, identifiers, blanks, tabs, CRLF, chains of casts/subscripts, over-limit nesting, late errors, and 16 families whose repetitions are all distinct lexemes) x 18 entry points (tokenize, four parse variants, five serialisers, extract, inspect, three scanners, lint, lint fixes, release). Each (family, size) runs in a probe binary built with -cover -covermode=atomic: counters are cleared before and written after every entry point, and the cost is the sum over the library's blocks of statements x executions. The cost ratio per input doubling must stay below 2.35 (statements) / 2.6 (bytes allocated) on the two largest steps; CPU time decides only from 100 ms and ratio 3.3 twice. Text-only entry points get a second ladder up to 1 MiB (thorough 4 MiB) where time inside the standard library shows as CPU time.",
+   note="Trusted: sizes stop at 64 KiB / 1 MiB (quick) and 512 KiB / 4 MiB (thorough), beyond which linearity is extrapolated; statement counts do not see time spent inside the standard library (covered by the CPU rule on the large ladder only); a ladder cut short by its time budget is judged on the sizes that finished.",
+   design="4/C20"),
 }
 
 def main():
